@@ -1,7 +1,9 @@
+\* regression: a rule holding an unparsable declaration (star hack) before commit b8275e3 'fix: keep declarations tinycss2 cannot parse ... as their tokens'
+\* TLC must report OutputWritten (and ReportedIsWrittenModuloF6) violated
 SPECIFICATION Spec
 CONSTANTS RootPostOverwrites = FALSE
           FallbackWritten = TRUE
-          CarryInvalid = TRUE
+          CarryInvalid = FALSE
           HackPositions = {1, 2}
           NR = 2
 INVARIANT Partition
